@@ -22,6 +22,7 @@ def run(model, rep, tier):
     r6_writer_total_on_strings(ctx, rep)
     r7_one_file_per_suite(ctx, rep)
     r8_record_is_total(ctx, rep)
+    r10_reports_written_once(ctx, rep)
     # the reports of a layer run in a subprocess are written by that child, after its report phase:
     # nothing in that phase may fail (shared with C07.R11)
     from . import c07
@@ -834,3 +835,51 @@ def r7_one_file_per_suite(ctx, rep, R='C17.R7'):
         else:
             rep.assume('%s: how the report file name %s depends on the suite name is not of a form '
                        'this rule reads' % (R, norm(tgt)))
+
+
+def r10_reports_written_once(ctx, rep, R='C17.R10'):
+    rep.rule(R, 'each report file is written once, from everything recorded for its suite: '
+             'writeXMLReports is called from Runner.run only (after the test phase and the report '
+             'hooks), and the table of recorded suites only grows (setdefault / append) -- an earlier '
+             'flush followed by forgetting, or a second flush, rewrites <suite>.xml with the testcases '
+             'of the last layer only when one suite has tests in several layers')
+    m = ctx.model
+    sites = []
+    for fi in m.all_functions():
+        if fi.module.name.startswith('tests'):
+            continue
+        for c in own_calls(fi.node):
+            if isinstance(c.func, ast.Attribute) and c.func.attr == 'writeXMLReports':
+                sites.append((fi, c))
+    ok = len(sites) == 1 and sites[0][0].qualname == 'runner.Runner.run'
+    rep.check(ok, R, 'writeXMLReports is called once, from Runner.run',
+              'writeXMLReports is called from %s' % [f.qualname for f, _ in sites], key='xml:flush-sites',
+              func=sites[0][0].qualname if sites else '', where=ctx.where(sites[-1][0], sites[-1][1]) if sites else '')
+    if ok:
+        fr, c = sites[0]
+        g = ctx.cfg(fr)
+        from .common import node_of, nodes_calling
+        cn = node_of(g, c)
+        rt = nodes_calling(g, lambda x: isinstance(x.func, ast.Attribute) and x.func.attr == 'run_tests')
+        after = cn is not None and rt and all(cn in g.reach([r_]) for r_ in rt) and \
+            not any(r_ in g.reach([cn]) for r_ in rt)
+        rep.check(bool(after), R, 'the reports are written after the test phase, not during it',
+                  'writeXMLReports can run before / between the layers', key='xml:flush-order',
+                  func=fr.qualname, where=ctx.where(fr, c))
+    w = m.cls('formatter.XMLOutputFormattingWrapper')
+    bad = []
+    for fi in w.methods.values():
+        for x in ast.walk(fi.node):
+            if isinstance(x, ast.Call) and isinstance(x.func, ast.Attribute) and \
+                    dotted(x.func.value) == 'self._testSuites' and x.func.attr in ('clear', 'pop', 'popitem'):
+                bad.append((fi, x))
+            if isinstance(x, ast.Delete) and any('self._testSuites' in norm(t) for t in x.targets):
+                bad.append((fi, x))
+            if isinstance(x, ast.Assign) and any(dotted(t) == 'self._testSuites' for t in x.targets) and \
+                    fi.name != '__init__':
+                bad.append((fi, x))
+    rep.check(not bad, R, 'the recorded suites are never forgotten while the process runs',
+              'recorded test cases are dropped (%s): a later flush rewrites the report without them'
+              % '; '.join('%s: %s' % (f.name, norm(x)[:40]) for f, x in bad[:2]), key='xml:forget',
+              func=bad[0][0].qualname if bad else w.qualname,
+              where=ctx.where(bad[0][0], bad[0][1]) if bad else '')
